@@ -34,7 +34,7 @@ Inductive badk :=
 | BOddMbs          (* MapBySlice of odd length *)
 | BMarshalErr      (* user marshaler returning an error *)
 | BMarshalPanic    (* user marshaler panicking *)
-| BUnsupKind.      (* unsafe.Pointer: kErr *)
+| BUnsupKind.      (* unsafe.Pointer (kErr); a container type that contains itself (type T []T, type M map[string]*M: TypeInfos.load reports "unsupported type ... is a container of itself") *)
 
 Inductive nilk := NPtr | NIface | NSlice | NMap | NChan.
 
